@@ -353,6 +353,21 @@ func TestC20(t *testing.T) {
 			ls.secrets = ls.secrets[:460]
 		}
 	}
+	// --- HTTP Basic authenticator: the header value holds the password; it may arrive in any of the encodings
+	// clients produce (padding left out, URL-safe alphabet, white space, junk after it) ---
+	{
+		cfgB, _ := config.NewFromString("[libdefaults]\n default_realm = R\n dns_lookup_kdc = false\n[realms]\n R = {\n }\n")
+		for _, user := range []string{"user", "DOM\\user", "user@DOM.EXAMPLE", "", "u:"} {
+			plain := []byte(user + ":" + password)
+			std := base64.StdEncoding.EncodeToString(plain)
+			for _, hv := range []string{std, strings.TrimRight(std, "="), base64.URLEncoding.EncodeToString(plain), base64.RawURLEncoding.EncodeToString(plain),
+				std + "!", " " + std, std[:len(std)-1], std + std, "=" + std, base64.StdEncoding.EncodeToString([]byte(password))} {
+				a := service.NewKRB5BasicAuthenticator(hv, cfgB, service.NewSettings(keytab.New()), nil)
+				_, _, err := a.Authenticate()
+				ls.err("KRB5BasicAuthenticator.Authenticate", err)
+			}
+		}
+	}
 	// --- ccache parse errors (a cache holds session keys) ---
 	for _, hdr := range []bool{false, true} {
 		ccb := ccacheWithKey(sess, hdr)
